@@ -139,7 +139,12 @@ func history(r drv.Rand, idx int) *h.World {
 		case k < 15:
 			e.Cred = h.BasicCred(drv.Pick(r, []string{"web", "web2", "webx", "web", "web2", "webnr", "webnr", "web2nx"}))
 		case k < 16:
-			e.Cred = h.GoodCred(drv.Pick(r, []string{"web2", "native", "spa"}))
+			if r.Bool() {
+				e.Cred = w.PublicCred()
+				w.Tags["cred=public"] = true
+			} else {
+				e.Cred = h.GoodCred("web2")
+			}
 		case k < 17:
 			if r.Bool() { // two identities: a valid credential of X, client_id=Y in the form
 				e.Cred = h.BasicCred(drv.Pick(r, []string{"web", "web2", "pkjwt"}))
@@ -150,6 +155,7 @@ func history(r drv.Rand, idx int) *h.World {
 				w.Tags["twoid=1"] = true
 			} else {
 				e.Cred = h.BasicCred(drv.Pick(r, []string{"native", "spa", "pkjwt"}))
+				w.Tags["cred=public"] = true
 			}
 		case k < 18:
 			e.Cred = h.Cred{Kind: "basic", ID: "web", Sec: "wrong"}
